@@ -295,7 +295,9 @@ type caseSpec struct {
 	via       string
 	thr       int
 	fast, lag int // V=h: websocket subscribers
-	ns        int // NS=n: the same messages are logged to n independent streams (or Modifiers)
+	failK     int    // V=f, F=<k>:<mode>: the sink fails on its k-th Write
+	failMode  string // once ever short slow
+	ns        int    // NS=n: the same messages are logged to n independent streams (or Modifiers)
 	phase     int // PH=k: messages k.. are logged in a second phase, after lagging subscribers were released
 	join      int // J=n: subscribers joining between the phases
 	msgs      []*message
@@ -352,6 +354,13 @@ func parseMS(in []string) (*caseSpec, bool) {
 				} else if k == "J" {
 					cs.join = n
 				}
+			case "F":
+				p := strings.SplitN(v, ":", 2)
+				n, err := strconv.Atoi(p[0])
+				if err != nil || n < 0 || len(p) != 2 || !strings.Contains(" once ever short slow ", " "+p[1]+" ") {
+					return nil, false
+				}
+				cs.failK, cs.failMode = n, p[1]
 			case "S":
 				var f, l int
 				if _, err := fmt.Sscanf(v, "%d:%d", &f, &l); err != nil || f < 0 || l < 0 || f+l < 1 || f+l > 8 {
@@ -470,7 +479,7 @@ func parseMS(in []string) (*caseSpec, bool) {
 			return nil, false
 		}
 	}
-	if len(cs.msgs) == 0 || !strings.Contains("s m r h", cs.via) || len(cs.via) != 1 {
+	if len(cs.msgs) == 0 || !strings.Contains("s m r h f", cs.via) || len(cs.via) != 1 {
 		return nil, false
 	}
 	return cs, true
@@ -698,6 +707,17 @@ func runMessage(m *message, ss []*marbl.Stream, mods []*marbl.Modifier) (out []s
 	return out
 }
 
+// watchdog: how long logging calls, body reads and Stream.Close may take
+// before the case is reported as hanging.  Short for failing-sink cases (tiny
+// messages), so that a stream that stops serving its senders is reported
+// within the quick budget.
+func watchdog(cs *caseSpec) time.Duration {
+	if cs.via == "f" {
+		return 8 * time.Second
+	}
+	return 90 * time.Second
+}
+
 func runMS(in []string) []string {
 	cs, ok := parseMS(in)
 	if !ok {
@@ -712,6 +732,12 @@ func runMS(in []string) []string {
 		sinks[0] = &retainSink{}
 	case "h":
 		sinks[0] = newHandlerSink(cs.fast, cs.lag)
+	case "f":
+		mode := cs.failMode
+		if mode == "" {
+			mode = "once"
+		}
+		sinks[0] = &failSink{k: cs.failK, mode: mode, phase: cs.phase}
 	}
 	sk := sinks[0]
 	lbs := []*lockedBuf{lb}
@@ -806,7 +832,7 @@ func runMS(in []string) []string {
 	}()
 	select {
 	case <-done:
-	case <-time.After(90 * time.Second):
+	case <-time.After(watchdog(cs)):
 		return []string{"HANG"}
 	}
 	var out []string
@@ -1295,6 +1321,22 @@ func main() {
 			in = append(in, randMessage(r, randID(r), 2000, 900)...)
 		}
 		emit("multi", in)
+	}
+
+	// ---- 5h. failing and slow sinks: the writer given to NewStream fails on
+	// its k-th Write (once / from then on / with a short write) while the
+	// messages of phase 1 are logged; messages of phase 2 are logged afterwards
+	for k := 0; k < 10*scale; k++ {
+		r := rng.Fork()
+		mode := []string{"once", "once", "once", "ever", "short", "slow"}[r.Intn(6)]
+		n1 := r.Range(1, 2)
+		in := []string{"MS", "V=f", fmt.Sprintf("F=%d:%s", r.Intn(14), mode), fmt.Sprintf("PH=%d", n1)}
+		for j, nm := 0, n1+r.Range(1, 2); j < nm; j++ {
+			in = append(in, "M", "id="+hexTok(fmt.Sprintf("f%07d", j)), "k="+[]string{"Q", "S"}[r.Intn(2)],
+				"h="+hexTok("A")+":"+hexTok("1"), fmt.Sprintf("bd=%d:%d", r.Range(0, 300), r.Intn(1<<30)), fmt.Sprintf("rb=%d", r.Range(20, 200)))
+		}
+		cfg.Count("failsink=" + mode)
+		emit("failsink", in)
 	}
 
 	// ---- 5e. delivery to subscribers of different speeds: a subscriber that
